@@ -34,7 +34,7 @@ def run(ctx):
     from translate import registry
     reg = registry.generate()
     ctx.extra["registry"] = {k: (v if not isinstance(v, list) or len(v) < 80 else len(v)) for k, v in reg.items()}
-    broken = ctx.lean_obligations(["ExoModel.Props.C01Registry", "ExoModel.Props.C01", "ExoModel.Props.C01Subst", "ExoModel.Props.C01Data", "ExoModel.Props.C01Alpha", "ExoModel.Props.C01Context", "ExoModel.Props.C01Storage", "ExoModel.Props.C01DataStmt", "ExoModel.Props.C01Calls", "ExoModel.Props.C01Recompute"])
+    broken = ctx.lean_obligations(["ExoModel.Props.C01Registry", "ExoModel.Props.C01", "ExoModel.Props.C01Subst", "ExoModel.Props.C01Data", "ExoModel.Props.C01Alpha", "ExoModel.Props.C01Context", "ExoModel.Props.C01Storage", "ExoModel.Props.C01DataStmt", "ExoModel.Props.C01Calls", "ExoModel.Props.C01Recompute", "ExoModel.Props.C01Side"])
     recs = sched_run.run_stream(ctx, ["obs_sem"], nvariants=ctx.scale(1, 3),
                                 opts={"depth": ctx.scale(2, 2), "n_inputs": ctx.scale(3, 6),
                                       "depth2_procs": ctx.scale(3, 10), "depth2_attempts": ctx.scale(12, 40)})
@@ -83,7 +83,9 @@ def run(ctx):
     for x in side:
         # accepted by the real check although the theorem's semantic side condition fails on a sampled input
         k = sem_key.get((x["program"], json.dumps(x["att"], sort_keys=True), json.dumps(x["hist"], sort_keys=True)))
-        ctx.violation(k or x["key"], x["what"] + " (correspondence B: accepted ⇒ side condition)", x, no_input=k is None)
+        # a recorded situation (classifier key) is the same defect seen through the side condition: it carries the input
+        known = ctx._known(x["key"]) is not None
+        ctx.violation(k or x["key"], x["what"] + " (correspondence B: accepted ⇒ side condition)", x, no_input=(k is None and not known))
     ctx.evaluations = ctx.counts.get("pairs-executed", 0)
     # end-to-end compositions: the shipped application schedules against their algorithm
     import apps_sem
